@@ -62,6 +62,15 @@ def run(ctx):
         bad = 0.0 if rng.random() < 0.93 else 0.5
         e = exprs.gen_gexpr(rng, fam, par, depth, 10 if depth else 12, bad)
         cases.append({"e": e, "fam": fam, "malformed": bad > 0})
+    # directed: products of two long elements, over length pairs incl. sums of lengths next to powers of two
+    pairs = [(9, 9), (17, 17), (16, 18), (33, 33), (32, 34), (31, 35), (12, 21)] if quick else \
+        [(a, b) for a in range(6, 24, 2) for b in range(6, 24, 3)] + [(33, 33), (32, 34), (31, 35), (40, 26), (64, 2), (65, 65), (33, 34)]
+    for (la, lb) in pairs:
+        fam = rng.choice(["int", "generic"])
+        da, db = 2 * rng.randint(-9, 3) + 1, 2 * rng.randint(-9, 3)
+        ga = ["glit", ["lit", da, exprs.gen_vec(rng, fam, la, zeros=False)], ["lit", da, exprs.gen_vec(rng, fam, la, zeros=False)]]
+        gb = ["glit", ["lit", db, exprs.gen_vec(rng, fam, lb, zeros=False)], ["lit", db, exprs.gen_vec(rng, fam, lb, zeros=False)]]
+        cases.append({"e": ["gmul", ga, gb], "fam": fam, "malformed": False})
     if ctx.replay is not None and ctx.replay.get("site") == "history":
         cases = [ctx.replay["case"]]
     impl = run_impl([{"fn": "gexpr", "e": exprs.g_json(c["e"])} for c in cases])
